@@ -10,7 +10,9 @@ open Buf
 /-- side conditions on the arguments of an operation (the domain of the theorems) -/
 def ScrOp.Valid (c : DrawCfg) : ScrOp → Prop
   | .setContent _ _ _ _ st => st.attrs ≠ attrInvalid
-  | .fill r st => st.attrs ≠ attrInvalid ∧ c.rw r = 1        -- Fill is documented for width-1 runes only
+  -- Fill is documented for width-1 runes only; the tree repaired by fixes/C09-fill-zero-width.patch (`c.fillZW`) also
+  -- handles zero-width / control / invalid runes, i.e. (with `RwOk.nonneg`) every rune that is not wider than one column
+  | .fill r st => st.attrs ≠ attrInvalid ∧ (c.rw r = 1 ∨ (c.fillZW = true ∧ c.rw r = 0))
   | .setStyle st => st.attrs ≠ attrInvalid
   | _ => True
 
@@ -131,6 +133,19 @@ theorem bufStep_fill (rw : Rune → Int) (b : Buf) (r : Rune) (st : Style) (hst 
   · intro i j h0; simpa using h0
   · intro _ i j; left; simp [Cell.filled, hr]
   · intro _ i j; simp only [fill_cells, Cell.filled]; exact hst
+
+/-- Fill of either tree (`Buf.fillV`), for the runes `ScrOp.Valid` admits -/
+theorem bufStep_fillV (fz : Bool) (rw : Rune → Int) (b : Buf) (r : Rune) (st : Style) (hst : st.attrs ≠ attrInvalid)
+    (hr : rw r = 1 ∨ (fz = true ∧ rw r = 0)) : BufStep rw b (b.fillV fz rw r st) := by
+  rcases hr with hr | ⟨hf, hr⟩
+  · rw [fillV_of_ne0 fz rw b r st (by omega)]; exact bufStep_fill rw b r st hst hr
+  · subst hf
+    refine { w := rfl, h := rfl, keep := ?_, dirty := ?_, wok := ?_, valid := ?_ }
+    · intro i j hl hm; simp only [fillV_cells, Cell.filledW_lock, Cell.filledW_lastMain, Cell.filledW_last] at hl hm ⊢
+      exact ⟨hl, hm, trivial⟩
+    · intro i j h0; simpa using h0
+    · intro _ i j; left; simp [Cell.fillWidth_true_zero rw r hr, hr]
+    · intro _ i j; simp only [fillV_cells, Cell.filledW_currStyle]; exact hst
 
 theorem bufStep_lockCell (rw : Rune → Int) (b : Buf) (x y : Int) : BufStep rw b (b.lockCell x y) := by
   refine { w := by simp, h := by simp, keep := ?_, dirty := ?_, wok := ?_, valid := ?_ }
@@ -553,7 +568,7 @@ theorem step_inv {c : DrawCfg} (hrw : RwOk c.rw) (hct : c.Plain) {wd : World} (i
   | setContent x y m comb st =>
     exact winv_bufop inv _ (bufStep_setContent c.rw _ x y m comb st hv)
   | fill r st =>
-    exact winv_bufop inv _ (bufStep_fill c.rw _ r st hv.1 hv.2)
+    exact winv_bufop inv _ (bufStep_fillV c.fillZW c.rw _ r st hv.1 hv.2)
   | lockRegion x y w h lock =>
     have e : wd.step c (.lockRegion x y w h lock) =
         { wd with sw := { wd.sw with s := { wd.sw.s with cells := lockRows wd.sw.s.cells x y w lock h.toNat } } } := by
